@@ -29,6 +29,7 @@ var (
 	once      sync.Once
 	reg       *ref.Registry
 	gates     map[string]int // "Type.Field" -> minor version
+	layout    map[string][]string // PINNED field order per structure type; "Name?" = omitted when empty
 	enumTypes map[string]bool
 	maskTypes = map[string]bool{"CryptographicUsageMask": true, "StorageStatusMask": true}
 )
@@ -44,6 +45,8 @@ func load() {
 			mi, _ := strconv.Atoi(parts[1])
 			gates[k] = mi
 		}
+		layout = map[string][]string{}
+		ref.Load("layout.json", &layout)
 		enumTypes = map[string]bool{}
 		for _, e := range gen.EnumTypes {
 			enumTypes[e.Name] = true
@@ -269,9 +272,38 @@ func (b *builder) value(tag int, v reflect.Value, out *[]wire.Node) {
 	}
 }
 
+// fieldOrder returns the indexes of t's encoded fields in the PINNED order, with the pinned optionality (the
+// KMIP specification fixes both; the struct definitions are the library's rendering of it and may drift). Types
+// and fields the pin does not know come last, in declaration order, with their own tags.
+func fieldOrder(t reflect.Type) (idx []int, omit map[int]bool) {
+	omit = map[int]bool{}
+	seen := map[int]bool{}
+	for _, e := range layout[t.Name()] {
+		name := strings.TrimSuffix(e, "?")
+		if f, ok := t.FieldByName(name); ok && len(f.Index) == 1 {
+			idx = append(idx, f.Index[0])
+			seen[f.Index[0]] = true
+			omit[f.Index[0]] = strings.HasSuffix(e, "?")
+		}
+	}
+	for i := 0; i < t.NumField(); i++ {
+		if seen[i] {
+			continue
+		}
+		idx = append(idx, i)
+		for _, p := range strings.Split(t.Field(i).Tag.Get("ttlv"), ",")[1:] {
+			if p == "omitempty" {
+				omit[i] = true
+			}
+		}
+	}
+	return
+}
+
 func (b *builder) fields(v reflect.Value, out *[]wire.Node) {
 	t := v.Type()
-	for i := 0; i < t.NumField(); i++ {
+	order, omits := fieldOrder(t)
+	for _, i := range order {
 		f := t.Field(i)
 		if !f.IsExported() {
 			continue
@@ -282,12 +314,7 @@ func (b *builder) fields(v reflect.Value, out *[]wire.Node) {
 		if name == "-" {
 			continue
 		}
-		omit := false
-		for _, p := range parts[1:] {
-			if p == "omitempty" {
-				omit = true
-			}
-		}
+		omit := omits[i]
 		fv := v.Field(i)
 		// version gate from the PIN
 		if g, ok := gates[t.Name()+"."+f.Name]; ok && b.minor >= 0 && b.minor < g {
